@@ -200,24 +200,39 @@ pub fn draw_cfg_benign(r: &mut crate::rng::Rng) -> (Cfg, Benign) {
     }
 }
 
-/// (quick runs, thorough runs)
+/// (quick runs, thorough runs): sized for about 25 s and 10 minutes on 16 workers
 pub fn budget(prop: &str) -> (u64, u64) {
     match prop {
-        "C04" => (20_000, 600_000),
+        "C01" => (50_000, 1_200_000),
+        "C02" => (200_000, 5_000_000),
+        "C03" => (200_000, 4_000_000),
+        "C04" => (400_000, 9_000_000),
+        "C17" => (400_000, 9_000_000),
+        "C18" => (80_000, 2_000_000),
         _ => (10_000, 100_000),
     }
 }
 
 pub fn rule(prop: &str) -> &'static str {
     match prop {
+        "C01" => "one evaluation = one generated SqPack install (written by the independent archive writer onto SimFs) + one query history on one GameData handle + one completion schedule, all drawn from the scenario seed (VERIF_SEED+i); every exists/find_offset/extract answer is compared with the reference lookup. Non-trivial = at least one short/interrupted read, permuted directory listing or (flagged extension) transient hostile completion actually happened; distinct = distinct (hash of the (call kind, completion kind) sequence, hash of install shape and query list).",
+        "C02" => "one evaluation = one generated dat file (independent packer: standard, texture and model entries, every block raw or deflated as stored/fixed/dynamic stream) + reads of its entries through SqPackData::read_from_offset or GameData::extract under one completion schedule; output compared byte for byte with what was packed (model: synthesized header fields and section addressing). Non-trivial = at least one short or interrupted read actually happened; distinct = distinct (schedule hash, hash of entry shapes).",
+        "C03" => "one evaluation = one pre-existing tree + 1..3 generated patch files (independent chunk writer) applied through ZiPatch::apply / GameData::apply_patch / BootData::apply_patch under one completion schedule; after every patch the SimFs tree must equal the executable reference ZiPatch semantics and the mutation trace must touch nothing else. The first 2890 evaluations of every batch are the systematic part (all sequences of <= 3 commands over a 14-command alphabet). Non-trivial = at least one short/interrupted read or write or permuted listing actually happened; distinct = distinct (schedule hash, hash of the command-kind sequence).",
         "C04" => "one evaluation = one generated pair of trees (A,B) + one completion schedule drawn from the scenario seed (VERIF_SEED+i): ZiPatch::create(A,B) then ZiPatch::apply on a copy of A, all file-system calls decided by SimFs. Non-trivial = at least one short/interrupted read or write or one permuted directory listing actually happened inside create/apply; distinct = distinct (hash of the sequence of (call kind, completion kind), hash of the tree-pair shape).",
+        "C17" => "one evaluation = one valid stored object or patch scenario + one fault sequence: hostile I/O completions placed inside in-flight operations (positions drawn from a fault-free profile run of the same scenario), at-rest storage faults (truncation, lost/garbage/stale sector, bit flip, named-field corruption, missing file, file replaced by a directory) and benign completions, all from the scenario seed. The directed part sweeps every truncation point of every small base object and patch and the whole field-value table for every named field. Monitors: panic, abort/stack overflow/signal (worker process), step budget and watchdog, allocation bound, 'Ok implies reference tree'. Non-trivial = at least one fault (hostile completion or at-rest fault) or non-full completion actually fired; distinct = distinct (schedule hash, hash of the scenario document).",
+        "C18" => "one evaluation = one generated install + a sequence of steps on a live GameData handle in which at-rest storage faults hit index and dat files between queries (truncation at structure boundaries +-1, named-field corruption of index header/entries, file-info, model-info, texture-mip and block headers, payload corruption, removed dat, dat replaced by a directory, stray directories with short / non-UTF-8 / ex+non-digit names) plus hostile read/seek/open/metadata completions during reassembly and discovery; or one generated asset buffer damaged the same way. The directed part sweeps the field-value table for every named field and every boundary truncation of a fixed install. Monitors: panic, process death, step budget/watchdog, allocation bound, leak under repetition of a failed extraction. Non-trivial and distinct as for C17.",
         _ => "",
     }
 }
 
 pub fn models(prop: &str) -> Vec<&'static str> {
     match prop {
+        "C01" => vec!["independent SqPack index/index2/dat writer (sim/src/formats/sqpack.rs)", "reference lookup: category = first component, repository = second component if present else base, bitwise JAMCRC of the lower-cased path (sim/src/props/archive.rs)"],
+        "C02" => vec!["independent packer: file-info headers, block tables, raw / miniz / hand-built stored and fixed-Huffman deflate blocks (sim/src/formats/sqpack.rs, sim/src/formats/mod.rs)"],
+        "C03" => vec!["independent ZiPatch chunk writer and executable reference semantics over a model tree (sim/src/formats/zipatch.rs)"],
         "C04" => vec!["tree equality oracle: files(T) == files(B); SimFs mutation index for 'create never modifies A or B'"],
+        "C17" => vec!["C03's reference model for 'success implies the reference tree'; no functional model for the buffer parsers (crash, time and memory monitors only)"],
+        "C18" => vec!["none functional (crash, time, memory and leak monitors only); valid objects from the independent archive writer and per-format asset builders"],
         _ => vec![],
     }
 }
@@ -228,7 +243,12 @@ pub fn assumptions(prop: &str) -> Vec<&'static str> {
         "sampling, not proof: a clean batch is evidence for the seeds and bounds reported",
     ];
     match prop {
+        "C01" => v.push("each path is stored in at most one chunk of its (repository, category) and no two stored or queried paths collide in either hash (screened by the generator); header details no property sentence speaks about are written so that both physis' and the public layout's reading accept them (DESIGN Appendix A)"),
+        "C02" => v.push("edge-geometry sections are empty, every non-empty section holds at least one byte, stored blocks are padded to a multiple of 128 bytes"),
+        "C03" => v.push("patches stay inside the constrained space where the references agree (DESIGN §4 C03): T before the first block command, block commands aim at an existing repository directory, no empty file blocks, no file/directory name clashes; ADIR/DELD directories, the leaf of F-M without trailing slash and an emptied expansion directory are unconstrained"),
         "C04" => v.push("trees hold regular files only, ASCII names, no file/directory name clash between A and B, no empty files in B (as the statement's quantifier says)"),
+        "C17" => v.push("allocation bound per operation: 256 MiB + 64 x bytes of input visible to it; step budget 1,000,000 + 16 x input bytes file-system calls; watchdog 20 s per scenario (replayed alone before it counts)"),
+        "C18" => v.push("allocation bound per operation: 256 MiB + 64 x bytes of input visible to it; leak = equal positive growth of live heap bytes across repetitions 2,3,4 of the same failed call"),
         _ => {}
     }
     v
